@@ -2,35 +2,122 @@
 
 package mimetype
 
+import (
+	"reflect"
+	"unsafe"
+)
+
 // This file exists only in the scratch copy the verification checks build; it
 // is never part of /repo. It lets many simulated runs share one process by
 // putting the detector tree back to what it was at process start.
+//
+// It relies on two identifiers only: the package variable `root` and the type
+// `MIME`. Everything reachable from root is found by reflection (through
+// unexported fields, slices, maps, interfaces and anything with a Load()
+// method, i.e. atomic.Pointer / atomic.Value holders), every MIME node found is
+// saved by value, and Restore writes the saved values back. A refactoring that
+// moves the children into an atomic pointer, or swaps an immutable tree behind
+// an atomic root, is therefore still restored correctly.
 
-// VerifTree is a snapshot of every node's children slice.
+// VerifTree is a snapshot of every reachable node and of the root variable.
 type VerifTree struct {
 	nodes []*MIME
-	kids  [][]*MIME
+	saved []MIME
+	root  reflect.Value // copy of the root variable's value
+}
+
+var mimeType = reflect.TypeOf(MIME{})
+
+func verifVisit(v reflect.Value, seen map[unsafe.Pointer]bool, s *VerifTree, depth int) {
+	if depth > 64 || !v.IsValid() {
+		return
+	}
+	switch v.Kind() {
+	case reflect.Ptr:
+		if v.IsNil() {
+			return
+		}
+		p := unsafe.Pointer(v.Pointer())
+		if seen[p] {
+			return
+		}
+		seen[p] = true
+		if v.Type().Elem() == mimeType {
+			m := (*MIME)(p)
+			s.nodes = append(s.nodes, m)
+			s.saved = append(s.saved, *m)
+			privateSlices(&s.saved[len(s.saved)-1])
+		}
+		verifVisit(v.Elem(), seen, s, depth+1)
+	case reflect.Struct:
+		if v.CanAddr() {
+			// holders of atomically published values: follow what Load() returns
+			a := reflect.NewAt(v.Type(), unsafe.Pointer(v.UnsafeAddr()))
+			if m := a.MethodByName("Load"); m.IsValid() && m.Type().NumIn() == 0 && m.Type().NumOut() == 1 {
+				out := m.Call(nil)[0]
+				verifVisit(out, seen, s, depth+1)
+			}
+		}
+		for i := 0; i < v.NumField(); i++ {
+			f := v.Field(i)
+			if f.CanAddr() {
+				f = reflect.NewAt(f.Type(), unsafe.Pointer(f.UnsafeAddr())).Elem()
+			}
+			verifVisit(f, seen, s, depth+1)
+		}
+	case reflect.Slice, reflect.Array:
+		k := v.Type().Elem().Kind()
+		if k != reflect.Ptr && k != reflect.Struct && k != reflect.Interface && k != reflect.Slice && k != reflect.Map {
+			return
+		}
+		for i := 0; i < v.Len(); i++ {
+			verifVisit(v.Index(i), seen, s, depth+1)
+		}
+	case reflect.Interface:
+		if !v.IsNil() {
+			verifVisit(v.Elem(), seen, s, depth+1)
+		}
+	case reflect.Map:
+		it := v.MapRange()
+		for it.Next() {
+			verifVisit(it.Value(), seen, s, depth+1)
+		}
+	}
+}
+
+// privateSlices replaces every slice-of-pointers field of *m by a copy, so
+// that an in-place change of the original backing array cannot be seen through m.
+func privateSlices(m *MIME) {
+	nv := reflect.ValueOf(m).Elem()
+	for f := 0; f < nv.NumField(); f++ {
+		fv := nv.Field(f)
+		if fv.Kind() == reflect.Slice && !fv.IsNil() && fv.Type().Elem().Kind() == reflect.Ptr {
+			fv = reflect.NewAt(fv.Type(), unsafe.Pointer(fv.UnsafeAddr())).Elem()
+			c := reflect.MakeSlice(fv.Type(), fv.Len(), fv.Len())
+			reflect.Copy(c, fv)
+			fv.Set(c)
+		}
+	}
 }
 
 // VerifSnapshotTree records the current shape of the tree.
 func VerifSnapshotTree() *VerifTree {
 	s := &VerifTree{}
-	var walk func(m *MIME)
-	walk = func(m *MIME) {
-		s.nodes = append(s.nodes, m)
-		s.kids = append(s.kids, append([]*MIME(nil), m.children...))
-		for _, c := range m.children {
-			walk(c)
-		}
-	}
-	walk(root)
+	rv := reflect.ValueOf(&root).Elem()
+	s.root = reflect.New(rv.Type()).Elem()
+	s.root.Set(rv)
+	verifVisit(rv, map[unsafe.Pointer]bool{}, s, 0)
 	return s
 }
 
-// Restore puts every recorded node's children back; nodes added later become unreachable.
+// Restore puts the root variable and every recorded node back; nodes added
+// later become unreachable. Slices held by the saved values are re-copied so
+// that a later in-place change cannot reach into the snapshot.
 func (s *VerifTree) Restore() {
+	reflect.ValueOf(&root).Elem().Set(s.root)
 	for i, n := range s.nodes {
-		n.children = append([]*MIME(nil), s.kids[i]...)
+		*n = s.saved[i]
+		privateSlices(n)
 	}
 }
 
